@@ -330,6 +330,7 @@ func crashViolation(prop string, r Result) (Violation, bool) {
 		var tops []string
 		var writes []bool
 		harnessInner := 0
+		syncAnn := false
 		lines := strings.Split(rep, "\n")
 		for i := 0; i < len(lines); i++ {
 			ln := strings.TrimSpace(lines[i])
@@ -342,6 +343,11 @@ func crashViolation(prop string, r Result) (Violation, bool) {
 				f := strings.TrimSpace(lines[j])
 				if f == "" {
 					break
+				}
+				if j == i+1 && (strings.HasPrefix(f, "runtime.racewrite()") || strings.HasPrefix(f, "runtime.raceread()")) {
+					// not a memory access of the code itself: an explicit annotation of the sync
+					// package (sync.WaitGroup models "Add at counter zero concurrent with Wait" so)
+					syncAnn = true
 				}
 				if j == i+1 && strings.HasPrefix(f, "verif/") {
 					// this access sits in harness code. If both do, it is a scenario variable
@@ -393,6 +399,13 @@ func crashViolation(prop string, r Result) (Violation, bool) {
 			pair := append([]string(nil), tops[:2]...)
 			sort.Strings(pair)
 			sig = "writes in " + pair[0] + " and " + pair[1]
+		}
+		if syncAnn {
+			other := tops[1]
+			if strings.HasSuffix(sig, tops[1]) {
+				other = tops[0]
+			}
+			sig += " [sync-package annotation; other access " + other + "]"
 		}
 		if len(rep) > 6000 {
 			rep = rep[:6000]
